@@ -108,6 +108,18 @@ def run(tier, seed):
     res.trusted += ['hand-written models of the seven counters (FF.simpleRange, rainflow, rangePair, rainflowRepeat, fourPoint, '
                     'rychlik, johannesson) tied by exact correspondence',
                     'the linked-index bookkeeping of range-pair/four-point is modelled as a stack / list with deletion']
+    # (last: a shared default object polluted here must not disturb the streams above)
+    core.import_impl()
+    from ffpack import lcc as _lcc
+    _hs = [[1.0, 2.0], [0.0, 1.0, 2.0, 3.0], [0.0, 2.0, 1.0, 3.0, 0.0], [3.0, 1.0, 3.0], [0.0, 1.0, 0.0, 1.0]]
+    _calls = []
+    for _h in _hs:
+        for _name in cyc.NAMES:
+            if not cyc.valid_for(_name, _h):
+                continue
+            for _agg in (True, False):
+                _calls.append((cyc.API[_name], (lambda _h=_h, _name=_name, _agg=_agg: getattr(_lcc, cyc.API[_name])(list(_h), aggregate=_agg)), f'{_h} aggregate={_agg}'))
+    cyc.fresh_results(res, _calls)
     return core.finish(res)
 
 
